@@ -51,12 +51,15 @@ type COp struct {
 
 // C11Plan is one concurrent shim world.
 type C11Plan struct {
-	NoUp    bool           `json:"no_up"`
-	Keys    []worlds.SKey  `json:"keys"`
-	Certs   []worlds.SCert `json:"certs"`
-	Init    []string       `json:"init"`
-	InitMem []string       `json:"init_mem,omitempty"`
-	Tasks   [][]COp        `json:"tasks"`
+	// EagerTimers: timers of the code under test may fire at any moment after their creation; otherwise they fire
+	// only when nothing else can run (time passes while everybody waits)
+	EagerTimers bool           `json:"eager_timers,omitempty"`
+	NoUp        bool           `json:"no_up"`
+	Keys        []worlds.SKey  `json:"keys"`
+	Certs       []worlds.SCert `json:"certs"`
+	Init        []string       `json:"init"`
+	InitMem     []string       `json:"init_mem,omitempty"`
+	Tasks       [][]COp        `json:"tasks"`
 	// Wire: every client task talks to the shim through its own connection served by yubiagent.ServeAgent on
 	// its own task (as the agent daemon does), instead of calling the shim directly.
 	Wire  bool `json:"wire,omitempty"`
@@ -165,6 +168,7 @@ func genC11(r *sim.Rng, tier string) any {
 			p.Faults = append(p.Faults, refagent.PeerFault{At: -1, OnKind: pick(r, []string{"list", "list", "sign", "remove", "add"}), Nth: r.Intn(6), Fault: refagent.FaultFail})
 		}
 	}
+	p.EagerTimers = r.Bool(0.4)
 	p.Strategy = sched.Strategy{Kind: pick(r, []string{"random", "random", "pct", "pct", "rr"}), Seed: r.Uint64(), D: r.Range(1, 3), Horizon: 60 * total}
 	return p
 }
@@ -438,6 +442,7 @@ func execC11(t *testing.T, raw json.RawMessage) *sim.Outcome {
 		model.Add(cat.Ident(r, 0, now), now)
 	}
 	s := sched.New(p.Strategy, 40000)
+	s.LazyTimers = true // (while the shim is being constructed; the plan's policy applies from then on)
 	s.KeepLog = false
 	timersBefore := simtime.Fired()
 	a, b := schedconn.Pipe("upstream")
@@ -605,6 +610,7 @@ func execC11(t *testing.T, raw json.RawMessage) *sim.Outcome {
 			a.Close()
 			return
 		}
+		s.SetLazyTimers(!p.EagerTimers)
 		armFaults(peer, p.Faults)
 		yubi := yubiagent.VerifNewServer(shim, "/nonexistent/yubico-piv-tool", !p.Local)
 		for ti := range p.Tasks {
